@@ -124,6 +124,10 @@ func (s *LevelDBState) Delete(key string) error {
 }
 
 func (s *LevelDBState) SaveOffset(offset uint64) error {
+	// stateDb is replaced by Reset, so it must be read under the same lock
+	s.Lock()
+	defer s.Unlock()
+
 	bz := make([]byte, 8)
 	binary.LittleEndian.PutUint64(bz, offset)
 
@@ -135,6 +139,9 @@ func (s *LevelDBState) SaveOffset(offset uint64) error {
 }
 
 func (s *LevelDBState) LoadOffset() (uint64, error) {
+	s.Lock()
+	defer s.Unlock()
+
 	bz, err := s.stateDb.Get(MakeCompositeKey(s.topic, OffsetKey), nil)
 	if err != nil {
 		return 0, fmt.Errorf("failed to read offset: %w", err)
